@@ -172,6 +172,10 @@ pub fn run_into(rep: &Report) {
         for start in ["pristine", "built", "stale"] {
             for (mi, _) in MODES.iter().enumerate() {
                 for si in 0..p.sels.len() {
+                    // (this engine drives the binary, which cannot express an empty input list)
+                    if p.sels[si].inputs.is_empty() {
+                        continue;
+                    }
                     jobs.push((pname, start, mi, si));
                 }
             }
